@@ -22,11 +22,13 @@ pub struct FCase {
     pub faults: Vec<(u8, u64)>,
     /// the writer is not dropped at the end of a scope but by stack unwinding (the caller panics with it alive)
     pub panic_drop: bool,
+    /// a write hit by a fault accepts 0 bytes instead of returning an error
+    pub zero_writes: bool,
 }
 
 impl FCase {
     pub fn to_json(&self) -> Value {
-        json!({"fault_run": {"ty": self.ty.name(), "other": self.other.map(|t| t.name()), "with_shx": self.with_shx, "ops": ops_name(&self.ops), "panic_drop": self.panic_drop,
+        json!({"fault_run": {"ty": self.ty.name(), "other": self.other.map(|t| t.name()), "with_shx": self.with_shx, "ops": ops_name(&self.ops), "panic_drop": self.panic_drop, "zero_writes": self.zero_writes,
             "faults": self.faults.iter().map(|(d, k)| json!([(["shp", "shx"][*d as usize]), k])).collect::<Vec<_>>()}})
     }
     pub fn from_json(v: &Value) -> Option<FCase> {
@@ -37,6 +39,7 @@ impl FCase {
             with_shx: f.get("with_shx")?.as_bool()?,
             ops: ops_from_name(f.get("ops")?.as_str()?)?,
             panic_drop: f.get("panic_drop").and_then(|x| x.as_bool()).unwrap_or(false),
+            zero_writes: f.get("zero_writes").and_then(|x| x.as_bool()).unwrap_or(false),
             faults: f.get("faults")?.as_array()?.iter().map(|x| Some((if x.get(0)?.as_str()? == "shp" { 0u8 } else { 1u8 }, x.get(1)?.as_u64()?))).collect::<Option<Vec<_>>>()?,
         })
     }
@@ -62,6 +65,8 @@ pub struct FRun {
     pub accepted: Vec<u8>,
     /// per successful finalize: (.shp log entries when it returned, shapes accepted before it); the final drop included when no fault fired in it
     pub finalized: Vec<(usize, usize)>,
+    /// .shx log entries at the same moments
+    pub finalized_shx: Vec<usize>,
 }
 
 impl FRun {
@@ -77,6 +82,10 @@ impl FRun {
 
 pub fn run(pal: &Palette, case: &FCase) -> FRun {
     let env = WEnv::new(case.with_shx);
+    env.shp.set_zero_write_on_fault(case.zero_writes);
+    if let Some(x) = &env.shx {
+        x.set_zero_write_on_fault(case.zero_writes);
+    }
     for (d, k) in &case.faults {
         if *d == 0 {
             env.shp.fail_at(*k, FaultMode::OneShot);
@@ -86,10 +95,14 @@ pub fn run(pal: &Palette, case: &FCase) -> FRun {
     }
     let mut accepted = vec![];
     let mut finalized = vec![];
+    let mut finalized_shx = vec![];
     let envr = &env;
     let results = exec_writer(pal, &case.ops, if case.panic_drop { Ending::DropWhilePanicking } else { Ending::Drop }, &env, |_, op, r| match (op, r) {
         (WOp::W(k), CallRes::Ok) => accepted.push(k),
-        (WOp::F, CallRes::Ok) => finalized.push((envr.shp.log_len(), accepted.len())),
+        (WOp::F, CallRes::Ok) => {
+            finalized.push((envr.shp.log_len(), accepted.len()));
+            finalized_shx.push(envr.shx.as_ref().map(|x| x.log_len()).unwrap_or(0));
+        }
         _ => {}
     });
     let shp_log = env.shp.log();
@@ -99,8 +112,9 @@ pub fn run(pal: &Palette, case: &FCase) -> FRun {
     let n = case.ops.len();
     if fired.iter().all(|c| (*c as usize) < n) {
         finalized.push((shp_log.len(), accepted.len()));
+        finalized_shx.push(shx_log.len());
     }
-    FRun { results, fired, shp: env.shp.data(), shx: env.shx.as_ref().map(|x| x.data()).unwrap_or_default(), shp_log, shx_log, accepted, finalized }
+    FRun { finalized_shx, results, fired, shp: env.shp.data(), shx: env.shx.as_ref().map(|x| x.data()).unwrap_or_default(), shp_log, shx_log, accepted, finalized }
 }
 
 /// The part of a destination its header declares (a `Write + Seek` destination cannot be truncated: what a
@@ -114,7 +128,7 @@ pub fn declared(b: &[u8]) -> &[u8] {
 /// little beyond the fault-free log, because a failed call changes what follows.  Runs in which not every
 /// planned fault fired are single-fault (or fault-free) runs and are not reported.
 pub fn for_each(ty: Ty, other: Option<Ty>, with_shx: bool, ops: &[WOp], pairs: bool, mut f: impl FnMut(&Palette, &FCase, &FRun)) {
-    let mut case = FCase { ty, other, with_shx, ops: ops.to_vec(), faults: vec![], panic_drop: false };
+    let mut case = FCase { ty, other, with_shx, ops: ops.to_vec(), faults: vec![], panic_drop: false, zero_writes: false };
     let pal = case.palette();
     let base = run(&pal, &case);
     // no fault, but the writer is dropped while the caller's panic unwinds
@@ -147,10 +161,23 @@ pub fn for_each(ty: Ty, other: Option<Ty>, with_shx: bool, ops: &[WOp], pairs: b
         }
     }
     for p in plans {
+        let single = p.len() == 1;
         case.faults = p;
         let r = run(&pal, &case);
         if r.all_fired(&case) {
             f(&pal, &case, &r);
+        }
+        // single faults again with the destination accepting 0 bytes instead of failing (where the operation
+        // is not a write this is the same run and is not repeated)
+        if single {
+            case.zero_writes = true;
+            let r0 = run(&pal, &case);
+            case.zero_writes = false;
+            if r0.all_fired(&case) && (r0.shp != r.shp || r0.shx != r.shx || r0.results != r.results) {
+                case.zero_writes = true;
+                f(&pal, &case, &r0);
+                case.zero_writes = false;
+            }
         }
     }
 }
